@@ -99,13 +99,14 @@ EndClauses(e) ==
      \o AllTrades(e.trades, Min2(Len(e.trades), Len(exp)))
      \o (IF nan THEN <<"trade-pnl-is-nan" \o rtag>>
          ELSE IF Hdr.spot /\ Hdr.fee_n # 0 THEN If(~e.completed \/ \A s \in DOMAIN sym : sym[s].q = 0, "position-open-after-terminate")
-         ELSE IF e.completed /\ e.has_wallet
+         \* (also for a session that an exception ended, as long as every position is flat: the wallet may be negative)
+         ELSE IF e.has_wallet /\ (e.completed \/ \A s \in DOMAIN sym : sym[s].q = 0)
          THEN If(\A s \in DOMAIN sym : sym[s].q = 0, "position-open-after-terminate")
               \o If(sum = e.w1 - e.w0, "sum-of-trade-pnl-vs-wallet" \o rtag)
               \o (IF e.has_metrics
                   THEN If(e.np = e.w1 - e.w0, "net-profit-vs-finishing-balance" \o rtag)
                        \o If(e.fb = e.w1, "finishing-balance-vs-wallet") \o If(e.total = Len(e.trades), "metrics-total")
-                  ELSE If(Len(e.trades) = 0 \/ ~e.expect_metrics, "no-metrics-though-trades"))
+                  ELSE If(Len(e.trades) = 0 \/ ~e.expect_metrics \/ ~e.completed, "no-metrics-though-trades"))
          ELSE <<>>)
 
 Step ==
